@@ -2,7 +2,7 @@
    Designs (Model.clone_mode): Owned = the current code (i2t owns a copy of every term); Rebuilt = i2t borrows
    from the keys, Clone rebuilds it; Derived = i2t borrows, derived Clone.  The theorems hold for every design
    but Derived; the two defects found in the borrowing designs are kept as refuted witnesses. *)
-From Sophia.C10 Require Import Model Proofs.
+From Sophia.C10 Require Import Model Proofs Query QueryProofs.
 
 (* every reachable world is well-formed: stores own pairwise disjoint, never-freed allocations (the text of
    their keys AND of the entries of i2t that own theirs), each i2t is aligned with the store's own keys *)
@@ -74,6 +74,40 @@ Check (collect_content : forall m ops d ts, m <> Derived -> find_store (live (ru
   exists s, find_store (live (run m (ops ++ collect_ops d ts))) d = Some s
             /\ content s = add_new [] (map (fun x => fst (fst x)) ts)).
 
+(* ---- the statement indexes and the queries (Query.v): graphs and datasets with one index or with all of them ---- *)
+(* after ANY history of insert / remove / clone / drop / move / query over several stores, all the indexes of
+   every live store hold the same statements ... *)
+Check (reachable_qwf : forall ops sid s, qfind (fst (qrun ops)) sid = Some s -> Qwf s).
+Check (qstep_wf : forall w o, WQ w -> WQ (fst (qstep w o))).
+(* ... so every query, whichever index the constants of its pattern select, returns exactly the statements of
+   the store that match the pattern *)
+Check (q_query_spec : forall st p, Qwf st -> q_query st p = filter (pat_matches (q_design st) p) (stmts st)).
+Check (reachable_query_spec : forall ops sid s p, qfind (fst (qrun ops)) sid = Some s ->
+  q_query s p = filter (pat_matches (q_design s) p) (stmts s)).
+(* insert / remove: the statements afterwards and the value returned *)
+Check (q_insert_spec : forall st q, Qwf st ->
+  Qwf (fst (q_insert st q))
+  /\ stmts (fst (q_insert st q)) = add_quad (norm (q_design st) q) (stmts st)
+  /\ snd (q_insert st q) = negb (mem_quad (norm (q_design st) q) (stmts st))).
+Check (q_remove_spec : forall st q, Qwf st ->
+  Qwf (fst (q_remove st q))
+  /\ stmts (fst (q_remove st q)) = del_quad (norm (q_design st) q) (stmts st)
+  /\ snd (q_remove st q) = mem_quad (norm (q_design st) q) (stmts st)).
+(* a query changes nothing; an operation on another store changes nothing of this one *)
+Check (q_query_pure : forall w sid p, fst (qstep w (QQuery sid p)) = w).
+Check (q_frame : forall w o sid, qtouches o sid = false -> qfind (fst (qstep w o)) sid = qfind w sid).
+(* a clone is its original at the time of cloning, and whatever is done afterwards to the original or to other
+   stores (mutations, drops, moves, queries of any shape, in any order) it answers every query as the original
+   did then; and the other way round *)
+Check (q_clone_spec : forall w src dst s, src <> dst -> qfind w src = Some s -> qfind w dst = None ->
+  qfind (fst (qstep w (QClone src dst))) dst = Some s /\ qfind (fst (qstep w (QClone src dst))) src = Some s).
+Check (q_clone_independent : forall w src dst s ops p, src <> dst -> qfind w src = Some s -> qfind w dst = None ->
+  forallb (fun o => negb (qtouches o dst)) ops = true ->
+  exists c, qfind (fst (qrun_from (fst (qstep w (QClone src dst))) ops)) dst = Some c /\ q_query c p = q_query s p).
+Check (q_original_independent : forall w src dst s ops p, src <> dst -> qfind w src = Some s -> qfind w dst = None ->
+  forallb (fun o => negb (qtouches o src)) ops = true ->
+  exists c, qfind (fst (qrun_from (fst (qstep w (QClone src dst))) ops)) src = Some c /\ q_query c p = q_query s p).
+
 Print Assumptions reachable_wf.
 Print Assumptions step_wf.
 Print Assumptions reachable_read_safe.
@@ -96,3 +130,16 @@ Print Assumptions take_spec.
 Print Assumptions collect_content.
 Print Assumptions collect_example.
 Print Assumptions compound_example.
+Print Assumptions reachable_qwf.
+Print Assumptions qstep_wf.
+Print Assumptions q_query_spec.
+Print Assumptions reachable_query_spec.
+Print Assumptions q_insert_spec.
+Print Assumptions q_remove_spec.
+Print Assumptions q_query_pure.
+Print Assumptions q_frame.
+Print Assumptions q_clone_spec.
+Print Assumptions q_clone_independent.
+Print Assumptions q_original_independent.
+Print Assumptions clone_mutate_query_example.
+Print Assumptions dataset_query_example.
